@@ -102,6 +102,13 @@ Definition whole_pairs (h0 h1 : hugrT) : list (op * op) :=
                      | _ => []
                      end) (combine (h_nodes h0) (h_nodes h1)).
 
+(* A call that raises (None) is never compared with the model: whether serialising, exporting or taking the bound of an
+   expression raises - and which exception - is outside the property (it happens on inputs outside its domain only:
+   too few arguments for a from-params definition, a polymorphic function type used as a type); the monitor decides
+   what a raise means for the property (before / after resolution must agree).  Values are compared when both sides
+   produce one. *)
+Definition agree {A} (eqb : A -> A -> bool) (obs model : option A) : bool :=
+  match obs, model with Some a, Some b => eqb a b | _, _ => true end.
 Definition port_types (o : op) : list ty :=
   match outer_signature o with Some f => ft_in f ++ ft_out f | None => [] end.
 Definition corr_node (reg : registry) (n : node_obs) : bool :=
@@ -110,36 +117,41 @@ Definition corr_node (reg : registry) (n : node_obs) : bool :=
   let keep := chose_keep [(n_op n, n_res n)] in
   let r := resolve_op reg keep o in
   op_eqb (n_res n) r && op_eqb (n_res2 n) (resolve_op reg keep r) &&
-  option_eqb op_eqb (n_ser0 n) (ser_op o) && option_eqb op_eqb (n_ser1 n) (ser_op r) &&
-  option_eqb export_eqb (n_exp0 n) (export_op o) && option_eqb export_eqb (n_exp1 n) (export_op r) &&
+  agree op_eqb (n_ser0 n) (ser_op o) &&
+  agree export_eqb (n_exp0 n) (export_op o) && agree export_eqb (n_exp1 n) (export_op r) &&
   list_eqb ty_eqb (n_pt0 n) (port_types o) && list_eqb ty_eqb (n_pt1 n) (port_types r) &&
-  list_eqb obound_eqb (n_pb0 n) (row_bounds (port_types o)) &&
-  list_eqb obound_eqb (n_pb1 n) (row_bounds (port_types r)).
+  list_eqb (agree bound_eqb) (n_pb0 n) (row_bounds (port_types o)) &&
+  (* the serial form and the bounds after resolution: only where the property speaks about them (an inconsistent
+     recorded bound is replaced by the computed one, or not: unspecified) *)
+  implb (consistent_op reg o)
+        (agree op_eqb (n_ser1 n) (ser_op r) && list_eqb (agree bound_eqb) (n_pb1 n) (row_bounds (port_types r))).
 
 Definition corr (c : case) : bool :=
   match c with
   | CTy reg t o =>
       let r := resolve_ty reg t in
       ty_eqb (o_res o) r && ty_eqb (o_res2 o) (resolve_ty reg r) &&
-      option_eqb ty_eqb (o_ser0 o) (ser_ty t) && option_eqb ty_eqb (o_ser1 o) (ser_ty r) &&
-      option_eqb term_eqb (o_mod0 o) (to_model t) && option_eqb term_eqb (o_mod1 o) (to_model r) &&
-      obound_eqb (o_b0 o) (tbound t) && obound_eqb (o_b1 o) (tbound r)
+      agree ty_eqb (o_ser0 o) (ser_ty t) &&
+      agree term_eqb (o_mod0 o) (to_model t) && agree term_eqb (o_mod1 o) (to_model r) &&
+      agree bound_eqb (o_b0 o) (tbound t) &&
+      implb (consistent reg t) (agree ty_eqb (o_ser1 o) (ser_ty r) && agree bound_eqb (o_b1 o) (tbound r))
   | CArg reg a o =>
       let r := resolve_arg reg a in
       tyarg_eqb (a_res o) r && tyarg_eqb (a_res2 o) (resolve_arg reg r) &&
-      option_eqb tyarg_eqb (a_ser0 o) (ser_arg a) && option_eqb tyarg_eqb (a_ser1 o) (ser_arg r) &&
-      option_eqb term_eqb (a_mod0 o) (arg_to_model a) && option_eqb term_eqb (a_mod1 o) (arg_to_model r)
+      agree tyarg_eqb (a_ser0 o) (ser_arg a) &&
+      agree term_eqb (a_mod0 o) (arg_to_model a) && agree term_eqb (a_mod1 o) (arg_to_model r) &&
+      implb (consistent_arg reg a) (agree tyarg_eqb (a_ser1 o) (ser_arg r))
   | CHugr reg nodes rest =>
       let keep := chose_keep (node_pairs nodes) in
       forallb (corr_node reg) nodes &&
-      implb (forallb (fun n => match ser_op (resolve_op reg keep (n_op n)) with Some _ => true | None => false end) nodes) rest &&
       (* Hugr.resolve_extensions as a whole *)
       list_eqb op_eqb (map n_res nodes) (resolve_hugr reg keep (map n_op nodes))
   | CWhole reg w =>
       let keep := chose_keep (whole_pairs (w_h0 w) (w_h1 w)) in
       let r := resolve_extensions reg keep (w_h0 w) in
       hugr_eqb r (w_h1 w) && hugr_eqb (resolve_extensions reg keep (w_h1 w)) (w_h2 w) &&
-      option_eqb doc_eqb (hugr_doc (w_h0 w)) (w_doc0 w) && option_eqb doc_eqb (hugr_doc r) (w_doc1 w) &&
+      agree doc_eqb (hugr_doc (w_h0 w)) (w_doc0 w) &&
+      implb (consistent_hugr reg (w_h0 w)) (agree doc_eqb (hugr_doc r) (w_doc1 w)) &&
       pts_eqb (w_pt0 w) (model_pts (w_h0 w)) && pts_eqb (w_pt1 w) (model_pts r)
   end.
 
